@@ -67,7 +67,7 @@ func runC16(c *Ctx) {
 		wait := `^call:client\.\(\*Client\)\.` + api.wait + `\(%c, (%ctx, )?` + id
 		c.Reach(r2, f, "waiter registered before the request is sent", ReachSpec{Stop: expect, Cut: pubNoAck(api.name), Target: send, Want: false})
 		c.Reach(r2, f, "request sent before waiting", ReachSpec{Stop: send, Target: wait, Want: false})
-		c.Reach(r2, f, "after registering, every exit waited or released the waiter", ReachSpec{From: expect, Stop: wait + `|^call:client\.\(\*Client\)\.abandonCall\(%c, ` + id, Cut: pubNoAck(api.name), Target: "EXIT", Want: false})
+		c.Reach(r2, f, "after registering, every exit waited or released the waiter", ReachSpec{From: expect, Stop: wait + `|^call:client\.\(\*Client\)\.(abandonCall|forgetReply)\(%c, ` + id, Cut: pubNoAck(api.name), Target: "EXIT", Want: false})
 		c.Fields(r2, f, "request literal", "wamp."+api.msg, fieldIs("Request", `.`), map[string]string{"Request": `^(` + id + `|\^id)$`}, 1)
 		if fn := c.Fn(r2, f); fn != nil {
 			n := len(matches(fn, `^call:wamp\.\(\*SyncIDGen\)\.Next\(`))
@@ -100,14 +100,24 @@ func runC16(c *Ctx) {
 		goProg := `^go:client\.\(\*Client\)\.` + api + `\$1\(\)$`
 		hasCb := clause("a progress handler was given", F(`^\(%progcb == nil\)$`))
 		c.Has(r3, f, "progress goroutine started", goProg, 1)
-		c.Reach(r3, f, "progress goroutine awaited on every exit", ReachSpec{FromEdge: &hasCb, Stop: `^val:<-(local:progDone|makechan\(chan struct\{\},0\))$|^call:client\.\(\*Client\)\.abandonCall\(`, Target: "EXIT", Want: false})
+		c.Reach(r3, f, "progress goroutine awaited on every exit", ReachSpec{FromEdge: &hasCb, Stop: `^val:<-(local:progDone|makechan\(chan struct\{\},0\))$|^call:client\.\(\*Client\)\.abandonCall\(`,
+			// the progress channel exists exactly when a handler was given (it is created under that very test)
+			Cut: []ir.Clause{clause("no progress channel, hence no handler", T(`^\(local:progChan == nil\)$`))}, Target: "EXIT", Want: false})
+		c.Guard(r3, f, "progress channel created", `^store:&local:progChan=makechan\(chan \*wamp\.Result,0\)$`, 1, hasCb)
 		c.Reach(r3, f, "progress channel closed before waiting for the goroutine", ReachSpec{From: goProg, Stop: `^call:builtin:close\((local:progChan|makechan\(chan \*wamp\.Result,0\))\)$|^call:client\.\(\*Client\)\.abandonCall\(`, Target: `^val:<-(local:progDone|makechan\(chan struct\{\},0\))$`, Want: false})
 		c.Has(r3, f+"$1", "handler called for each progressive result in order", `^call:dyn:\^progcb\(`, 1)
 		c.Has(r3, f+"$1", "goroutine signals completion after the channel drained", `^call:builtin:close\(\^progDone\)$`, 1)
 	}
 	ab := cl + "abandonCall"
-	c.Reach(r3, ab, "abandonCall closes and waits when a progress goroutine exists", ReachSpec{Stop: `^val:<-%progDone$`, Cut: []ir.Clause{clause("no progress handler", T(`^\(%progChan == nil\)$`))}, Target: "EXIT", Want: false})
-	c.Has(r3, ab, "abandonCall releases the waiter", waiterForgotten, 1)
+	if c.P.Func(ab) != nil {
+		c.Reach(r3, ab, "abandonCall closes and waits when a progress goroutine exists", ReachSpec{Stop: `^val:<-%progDone$`, Cut: []ir.Clause{clause("no progress handler", T(`^\(%progChan == nil\)$`))}, Target: "EXIT", Want: false})
+		c.Has(r3, ab, "abandonCall releases the waiter", waiterForgotten, 1)
+	} else {
+		// no helper: the callers release the waiter and wait for the progress goroutine themselves, which the two
+		// per-exit obligations above ("every exit waited or released the waiter", "progress goroutine awaited") decide
+		c.R.OK(r3, cl+"Call", "give-up path handled inline (no abandonCall helper)", "-", "")
+		c.R.OK(r3, cl+"CallProgressive", "give-up path handled inline (no abandonCall helper)", "-", "")
+	}
 	wc := cl + "waitForReplyWithCancel"
 	c.Guard(r3, wc, "progressive result forwarded", `^send:%progChan<-`, 1, clause("a progress channel exists", F(`^\(%progChan == nil\)$`)),
 		clause("result carries the progress flag", T(`^.*\.Details\["progress"\]\.\(bool\),ok#0$`)))
